@@ -128,6 +128,8 @@ def build(tier):
     tpos = Target('percentile_position_ieee', [pos], 'specs/C20/position.h', timeout=200)
     tpos.bound = 'n <= 64 values, integer percentages 0..100'
     tpos.note = 'IEEE evaluation of the percentile position: lpos/rpos are the exact floor/ceiling of P(n-1)/100'
+    import ext
+    targets += ext.mean_targets(tier)
     pv, pf = percentile_vcs()
     return {
         'targets': targets, 'vcs': pv, 'functions': pf, 'bounded': [tpos],
@@ -157,6 +159,32 @@ def replay(rp):
             seen.add((P, n))
             rc, so, se = replaylib.run_driver(exe, ['pct', P, n])
             out['runs'].append({'obligation': fo['id'], 'percentage': P, 'n': n, 'exit': rc, 'output': so.strip()})
+            if rc == 1:
+                out['reproduced'] = True
+        return out
+    if rp['target'].startswith('mean_'):
+        # per-bin sums that do not fit the sample type (the verifier's counterexample is one overflowing step of the fold)
+        kind = {'mean_i8': 'b', 'mean_i16': 's', 'mean_i32': 'w', 'mean_i64': 'i'}.get(rp['target'].replace('mean_op_', 'mean_'), 'd')
+        big = {'b': 100, 's': 30000, 'w': 2000000000, 'i': 9000000000000000000, 'd': 1}[kind]
+        for th, vals in [([0.5], [big, big, big, -big, -big, -big]), ([0.5], [big, big - 1, 1, 2, -3])]:
+            rc, so, se = replaylib.run_driver(exe, ['hist', kind, len(th)] + [repr(float(t)) for t in th] + [repr(x) for x in vals])
+            out['runs'].append({'values': kind, 'thresholds': th, 'list': vals, 'exit': rc, 'output': so.strip()[-600:]})
+            if rc == 1:
+                out['reproduced'] = True
+        return out
+    if rp['target'].startswith(('ctor_', 'make_')):
+        # thresholds handed over in non-ascending order (the representation invariant is the constructor's to establish)
+        for kind, th, vals in [('d', [2.5, 0.5, -1.5], [-3, -2, -1.5, 0, 0.5, 1, 2, 2.5, 3]), ('i', [3.0, 1.0, 2.0, 1.0], [0, 1, 1, 2, 3, 4]),
+                               ('d', [-1.5, 0.5, 2.5], [3, -2, 2.5, 0, 0.5, -3, 2, -1.5, 1])]:
+            rc, so, se = replaylib.run_driver(exe, ['hist', kind, len(th)] + [repr(float(t)) for t in th] + [repr(x) for x in vals])
+            out['runs'].append({'values': kind, 'thresholds': th, 'list': vals, 'exit': rc, 'output': so.strip()[-600:]})
+            if rc == 1:
+                out['reproduced'] = True
+        return out
+    if rp['target'].startswith('median') or rp['target'].startswith('percentile_unsorted'):
+        for vals in [[1, 2, 3, 5, 4, 6], [4, 1, 3, 2], [7, -1, 3, 3, 0, 9, 2, 5], [2.5, -0.5, 1.5, 0.25]]:
+            rc, so, se = replaylib.run_driver(exe, ['med'] + [repr(float(x)) for x in vals])
+            out['runs'].append({'list': vals, 'exit': rc, 'output': so.strip()[-600:]})
             if rc == 1:
                 out['reproduced'] = True
         return out
